@@ -185,7 +185,17 @@ def harness_features(src):
     return re.findall(r"^\s*XV_FEATURE\((\w+)\)", open(src).read(), re.M)
 
 
+_tree_hash_memo = []
+
+
 def _tree_hash():
+    if _tree_hash_memo:
+        return _tree_hash_memo[0]
+    _tree_hash_memo.append(_tree_hash_compute())
+    return _tree_hash_memo[0]
+
+
+def _tree_hash_compute():
     h = hashlib.sha1()
     for root in (os.path.join(REPO, "include"), os.path.join(VERIF, "harness"), os.path.join(VERIF, "engine")):
         for d, _, files in sorted(os.walk(root)):
